@@ -69,6 +69,18 @@ let dispatch (fn : string) (args : sx list) : sx =
   | "tree_layer", [se; n] ->
       let n = get_nat n in
       of_opt (of_list (of_list (of_list of_nat))) (tree_layer n (get_opt get_nat se) n)
+  | "repart_plan", [a; b; force] ->
+      let of_slice s = L [of_nat s.s_src; of_z s.s_lo; of_z s.s_hi; of_bool s.s_closed] in
+      let of_out = function ODummy -> A "dummy" | OAlias k -> L [A "alias"; of_nat k]
+                          | OConcat ks -> L [A "concat"; of_list of_nat ks] in
+      of_opt (fun p -> L [of_list of_slice p.p_slices; of_list of_out p.p_outs])
+        (repart_plan (get_list get_z a) (get_list get_z b) (get_bool force))
+  | "clean_boundaries", [bs; n] -> of_list of_nat (clean_boundaries (get_list get_nat bs) (get_nat n))
+  | "fewer_ranges", [bs] -> of_list (of_list of_nat) (fewer_ranges (get_list get_nat bs))
+  | "more_nsplits", [a; b] -> of_list of_nat (more_nsplits (get_nat a) (get_nat b))
+  | "more_layer", [ns] ->
+      of_list (function MAlias i -> L [A "alias"; of_nat i] | MPiece (i, jj) -> L [A "piece"; of_nat i; of_nat jj])
+        (more_layer (get_list get_nat ns))
   | _ -> failwith ("unknown request " ^ fn)
 (*DISPATCH-END*)
 
